@@ -699,10 +699,12 @@ def explore_paths(case):
                     else:
                         E["gen"](E["sets"], dest)
             except Exception as ex:
-                if tag == "abs_str":
-                    res.fail(site=setname, clause="generation_into_plain_absolute_directory_succeeds", cls=tag, detail=dict(error="%s: %s" % (type(ex).__name__, str(ex)[:200])), sub="paths", case=case)
-                else:
+                # "every entry point succeeds": all these spellings name a directory that can be written.  The one refusal the pinned
+                # tree itself makes (the estimator generator concatenates strings and rejects a pathlib.Path) is not demanded.
+                if E["kind"] == "est" and tag == "pathlib_Path":
                     res.count("refused")
+                else:
+                    res.fail(site=setname, clause="generation_succeeds_for_every_spelling_of_a_writable_directory", cls=tag, detail=dict(spelling=tag, destination=str(dest), error="%s: %s" % (type(ex).__name__, str(ex)[:200])), sub="paths", case=case)
                 continue
             finally:
                 os.chdir(work)
@@ -728,6 +730,24 @@ def explore_paths(case):
             stray = sorted({d for d in os.listdir(work)} - before - {where})
             if stray:
                 res.fail(site=setname, clause="nothing_written_outside_the_named_directory", cls=tag, detail=dict(spelling=tag, destination=str(dest), stray=stray[:6]), sub="paths", case=case)
+        # option VALUES of another type with the same truth value (numpy booleans from a comparison, 0 / 1): accepted by the generators,
+        # the output is that of the plain booleans
+        os.chdir(work)
+        flip = dict(with_header=False, main=True)
+        ref_flip = _generate(E, os.path.join(tmp, "reference_flip"), flip)
+        for vtag, conv in (("numpy.bool_", lambda b: np.bool_(b)), ("numpy_comparison", lambda b: (np.int64(2) > 1) if b else (np.int64(0) > 1)), ("int_0_1", lambda b: int(b))):
+            for otag, opts, want in (("default_values", {k: conv(v) for k, v in (EST_DEFAULT if E["kind"] == "est" else GENERIC_DEFAULT).items()}, ref_files), ("flipped", {k: conv(v) for k, v in flip.items()}, ref_flip)):
+                res.count("evaluations")
+                res.count("programs")
+                res.nontrivial.add(hash((setname, "optval", vtag, otag)))
+                try:
+                    got = _generate(E, os.path.join(work, "optval_%s_%s" % (vtag, otag)), opts)
+                except Exception as ex:
+                    res.fail(site=setname, clause="generation_succeeds_under_accepted_option_values", cls=vtag, detail=dict(value_type=vtag, options=otag, error="%s: %s" % (type(ex).__name__, str(ex)[:200])), sub="paths", case=case)
+                    continue
+                if got != want:
+                    diff = sorted(set(got) ^ set(want)) or [f for f in want if got.get(f) != want[f]]
+                    res.fail(site=setname, clause="option_value_of_equal_truth_gives_equal_output", cls=vtag, detail=dict(value_type=vtag, options=otag, differing_files=diff[:6]), sub="paths", case=case)
     finally:
         os.chdir(cwd0)
         shutil.rmtree(tmp, ignore_errors=True)
@@ -739,7 +759,7 @@ class _Paths:
     chunks = 1
 
     def cases(self, tier, seed):
-        return [dict(sub="paths", set=n, tier=tier) for n in ("rdd2", "estimator", "mr_ref_traj", "bezier")]
+        return [dict(sub="paths", set=n, tier=tier) for n in ("rdd2", "estimator", "estimator_generic", "mr_ref_traj", "bezier", "rdd2_loglinear")]
 
     def run(self, case):
         return explore_paths(case)
